@@ -43,6 +43,7 @@ class InternalCompiler(Compiler):
     ) -> QCircuit:
         qc = QCircuitEnhanced(name=name)
         self.expqmap = ExpQMap()
+        self.const_qubits: dict = {}
         # self.remaining_exps = deepcopy(exprs)
 
         # 1. We first add a qubit for every input bit
@@ -93,15 +94,18 @@ class InternalCompiler(Compiler):
         """Compile a boolean expression, return the result qubit"""
 
         # 1. If we have a constant expression, create if needed and return a constant qubit
-        if isinstance(expr, BooleanFalse):
-            if "FALSE" not in qc:
-                qc.add_qubit("FALSE")
-            return qc["FALSE"]
-        elif isinstance(expr, BooleanTrue):
-            if "TRUE" not in qc:
-                qc.add_qubit("TRUE")
-                qc.x(qc["TRUE"])
-            return qc["TRUE"]
+        if isinstance(expr, (BooleanFalse, BooleanTrue)):
+            value = isinstance(expr, BooleanTrue)
+            if value not in self.const_qubits:
+                # The constant qubits belong to the compiler: an argument called TRUE
+                # or FALSE is not one of them
+                name = "TRUE" if value else "FALSE"
+                while name in qc:
+                    name = f"_{name}"
+                self.const_qubits[value] = qc.add_qubit(name)
+                if value:
+                    qc.x(self.const_qubits[value])
+            return self.const_qubits[value]
 
         # 2. If expr is a symbol
         elif isinstance(expr, Symbol):
